@@ -37,7 +37,7 @@ func TestVerifC03Fragment(t *testing.T) {
 	dir := filepath.Join(os.Getenv("VERIF_SCRATCH"), "c03frag")
 	os.MkdirAll(dir, 0o755)
 
-	n := r.N(1500, 150000)
+	n := r.N(1500, 60000)
 	r.Cases("frag", n, func(i int, id string, rng *vk.Rand) {
 		path := filepath.Join(dir, fmt.Sprintf("f-%d", i))
 		defer os.Remove(path)
